@@ -95,23 +95,31 @@ class Check:
         self.log.flush()
 
     # ---- shared build -------------------------------------------------------
-    def build(self, coq_targets):
-        """translator + harness build + coq make of the targets; returns (coq_ok)."""
+    def build(self, coq_targets, harness=None, units=None):
+        """translator units + harness driver build + coq make of the targets.
+        harness: list of harness/cmd names (default: the property id in lower case);
+        units: list of translator/cmd names whose output the property's Coq files import."""
+        harness = [self.pid.lower()] if harness is None else harness
+        units = units or []
+        self.harness_bins = harness
         with Lock():
-            rc, out, dt = sh([os.path.join(V, "bin/mkharness")], timeout=900)
+            rc, out, dt = sh([os.path.join(V, "bin/mkharness")] + harness + units, timeout=900)
             self.log.write(out)
             self.harness_ok = rc == 0
             if rc != 0:
                 self.broken.append(dict(kind="harness-build", name="go build of harness/translator against the working tree",
                                         detail=out[-1500:]))
                 self.say("[%s] harness build FAILED" % self.pid)
-            rc, out, dt = sh([os.path.join(WORK, "translator"), "-repo", REPO, "-out", os.path.join(COQ, "gen")], timeout=300)
-            self.log.write(out)
-            if rc != 0:
-                self.broken.append(dict(kind="translator", name="translator run", detail=out[-1500:]))
+            for u in units:
+                b = os.path.join(WORK, "t_" + u)
+                if not os.path.exists(b):
+                    continue
+                rc, out, dt = sh([b, "-repo", REPO, "-out", os.path.join(COQ, "gen")], timeout=300)
+                self.log.write(out)
+                if rc != 0:
+                    self.broken.append(dict(kind="translator", name="translator unit %s" % u, detail=out[-1500:]))
             self.gen_hashes = {os.path.basename(p): file_sha(p) for p in sorted(glob.glob(os.path.join(COQ, "gen", "*.v")))}
             self.coq_ok = {}
-            # build each target separately so that a failure is attributed to its file
             rc, out, dt = sh([os.path.join(V, "bin/coqmk"), "-k"] + coq_targets, timeout=2400)
             self.log.write(out)
             self.coq_log = out
@@ -187,14 +195,14 @@ class Check:
         return bad
 
     # ---- correspondence -------------------------------------------------------
-    def run_driver(self, name, n, shards=8, extra=None, timeout=900, env=None, coq=True):
+    def run_driver(self, name, n, shards=8, extra=None, timeout=900, env=None, coq=True, binary=None):
         """Runs harness driver <name>, then evaluates the case shards in Coq in parallel.
         Returns the driver's stats dict (or None)."""
         if not self.harness_ok:
             return None
         out = os.path.join(self.wd, "cases_%s.v" % name)
         stats = os.path.join(self.wd, "stats_%s.json" % name)
-        cmd = [os.path.join(WORK, "harness"), name, "-seed", str(self.seed), "-n", str(n), "-out", out,
+        cmd = [os.path.join(WORK, "h_" + (binary or self.harness_bins[0])), name, "-seed", str(self.seed), "-n", str(n), "-out", out,
                "-stats", stats, "-tier", self.tier]
         if extra:
             cmd += ["-extra", extra]
